@@ -35,7 +35,7 @@ ASSUMPTIONS = [
     "nested functions / lambdas that differ only in closure values have the same source and are outside the statement",
 ]
 SHARDS = {"quick": 12, "thorough": 14}
-FLOORS = {"quick": {"histories": 800, "calls_checked": 2500, "old_version_calls": 700, "idreuse_achieved": 5, "forced_calls": 150, "fresh_process_sessions": 60, "calls_of_a_live_process": 12, "live_histories": 3, "unchanged_sessions_checked": 8, "histories_with_two_cache_directories": 100, "hash_colliding_code_swaps": 30, "histories_with_one_directory_under_two_spellings": 40},
+FLOORS = {"quick": {"histories": 800, "calls_checked": 2500, "old_version_calls": 700, "idreuse_achieved": 5, "forced_calls": 150, "fresh_process_sessions": 60, "calls_of_a_live_process": 12, "live_histories": 3, "unchanged_sessions_checked": 8, "histories_with_two_cache_directories": 100, "hash_colliding_code_swaps": 30, "histories_with_one_directory_under_two_spellings": 40, "calls_through_a_pickled_copy_of_the_wrapper": 150},
           "thorough": {"idreuse_achieved": 50, "histories": 30000, "calls_checked": 100000, "old_version_calls": 30000, "fresh_process_sessions": 2000, "calls_of_a_live_process": 150, "live_histories": 40, "unchanged_sessions_checked": 250, "histories_with_two_cache_directories": 3000, "hash_colliding_code_swaps": 500, "histories_with_one_directory_under_two_spellings": 1000}}
 
 EXEC = []
@@ -230,6 +230,17 @@ def run_history(style, h, ctx, d, shape=None, two_dirs=False):
                     continue
                 before = len(EXEC)
                 through = live_b if (j in live_b and idx % 2) else live
+                if kind == "call" and style in ("cells", "lambda", "nested", "codeswap", "nosource") and int(harness.h([style, h, idx], 4), 16) % 3 == 0:
+                    # the call goes through a copy of the wrapper that went through pickle (what a wrapper sent to a worker or
+                    # handed to another process is): these functions are not importable, cloudpickle ships them by value - the
+                    # copy runs the code the function had WHEN IT WAS PICKLED and must be keyed by that code
+                    try:
+                        from joblib.externals import cloudpickle
+                        through = {j: cloudpickle.loads(cloudpickle.dumps(through[j]))}
+                        ctx.count("calls_through_a_pickled_copy_of_the_wrapper")
+                    except Exception as e:  # noqa
+                        ctx.violation(f"wrapper-not-picklable:{style_key}", f"pickling the wrapper of version {j} raised {type(e).__name__}: {e}; {desc}", desc)
+                        return
                 try:
                     if kind == "force":
                         # MemorizedFunc.call: force the execution and store the result
